@@ -178,7 +178,8 @@ P_C09_CreateFresh ==
      (CurRev \in MonRev /\ B.store[CurRev].st = "none" /\ S.store[CurRev].st # "none")
 P_C09_LoserClean ==
   (AtEnd /\ esum.u.kind \in {"install", "upgrade"} /\ ~esum.u.dry /\ esum.crs = {}) =>
-     (~esum.ok /\ \A i \in DOMAIN esum.log : ~ResWriteM(esum.log[i]))
+     (~esum.ok /\ \A i \in DOMAIN esum.log :
+         ~ResWriteM(esum.log[i]) /\ ~(esum.log[i].kind = "store" /\ esum.log[i].ok /\ IsWrite(esum.log[i])))
 P_C09_Quiescent == (\A p \in MonProc : ~sum[p].active) => C01_AtMostOneDeployed(S.store)
 \* (all hook objects of the release: an --atomic sub-operation runs another revision's hooks)
 P_C12_Disabled      == AtEnd => C12_Disabled(esum.log, HookIdsIn(EPre.store) \cup HookIdsIn(S.store) \cup DOMAIN DefsFor(esum, EPre, S), esum.u)
